@@ -3,6 +3,7 @@ import TV.Proofs.WorkQueueSafety
 import TV.Proofs.WorkQueueLive
 import TV.Proofs.MonitorWQInv
 import TV.Proofs.MonitorWQLemmas
+import TV.Proofs.WorkQueueBreakAfterStop
 /-!
 # The model passes the WorkQueue monitors
 
